@@ -118,6 +118,29 @@ def rng_replay(env):
                 break
     except Exception as e:      # noqa
         bad.append('vine sampling: %s: %s' % (type(e).__name__, str(e)[:100]))
+    # the Gaussian multivariate, plain and conditional: a seeded model leaves the global state alone and two equally seeded
+    # models give the same rows whatever the global state was
+    try:
+        import pandas as pd
+        Xg = pd.DataFrame(rs.normal(size=(80, 3)) @ np.array([[1.0, 0.5, 0.2], [0.0, 0.8, -0.3], [0.0, 0.0, 0.9]]),
+                          columns=['c', 'a', 'b'])
+        for kw in ({}, {'conditions': {'a': 0.3}}, {'conditions': pd.Series({'c': -0.2, 'b': 0.4})}):
+            outs = []
+            for g in (5, 77):
+                np.random.seed(g)
+                g0 = np.random.get_state()[1].copy()
+                mg = GaussianMultivariate(distribution=GaussianUnivariate, random_state=13)
+                mg.fit(Xg)
+                outs.append(mg.sample(4, **kw))
+                if not (np.random.get_state()[1] == g0).all():
+                    bad.append('GaussianMultivariate.sample(%s): a seeded model changed the global NumPy state'
+                               % ('conditions' if kw else 'plain'))
+                    break
+            if len(outs) == 2 and not outs[0].equals(outs[1]):
+                bad.append('GaussianMultivariate.sample(%s): two models seeded alike give different rows when the global '
+                           'state differs' % ('conditions' if kw else 'plain'))
+    except Exception as e:      # noqa
+        bad.append('GaussianMultivariate sampling: %s: %s' % (type(e).__name__, str(e)[:100]))
     # re-seeding after fit must take effect
     u = _fit(Univariate(candidates=[GaussianUnivariate, UniformUnivariate], random_state=7), data)
     u.sample(2)
